@@ -871,6 +871,34 @@ func genMain(args []string) {
 			w.WriteByte('\n')
 			continue
 		}
+		if *prof == "jsonbytes" {
+			// JSON documents and malformed neighbours as input bytes of EvalBytes (C10)
+			b := []byte(g.jsonText(g.jsonDoc(3), 0))
+			if g.chance(0.6) && len(b) > 0 {
+				k := g.r.Intn(len(b) + 1)
+				junk := "}]\",:1 \\{[\x00ntx-.e"
+				switch g.r.Intn(5) {
+				case 0:
+					if k < len(b) {
+						b = append(b[:k:k], b[k+1:]...)
+					}
+				case 1:
+					if k < len(b) {
+						b[k] = junk[g.r.Intn(len(junk))]
+					}
+				case 2:
+					b = b[:k]
+				case 3:
+					b = append(b, junk[g.r.Intn(len(junk))])
+				default:
+					b = append(b[:k:k], append([]byte{junk[g.r.Intn(len(junk))]}, b[k:]...)...)
+				}
+			}
+			line, _ := json.Marshal(M{"id": *start + i, "fam": *fam, "mode": "evalbytes", "bytes": bytesJSON(b)})
+			w.Write(line)
+			w.WriteByte('\n')
+			continue
+		}
 		if *prof == "jsontext" {
 			txt := g.jsonText(g.jsonDoc(3), 0)
 			if g.chance(0.15) && len(txt) > 0 { // a malformed neighbour
